@@ -12,7 +12,8 @@ RULE = (
     "part perf: complete product number of surfaces x symmetry x user/summed S_ref x value alphabets (coefficients, masses, flight condition) "
     "on the real TotalPerformance group, identities evaluated by the harness from the group's INPUTS; part lw: inputs constructed so that "
     "L = W exactly; part atmos: every tabulated altitude, every mid-point and h+-1 ft x Mach on the real AtmosGroup against ideal-gas "
-    "relations; non-trivial = distinct input tuples"
+    "relations; part cmgroup: CM and M through AeroPoint / AerostructPoint (two surfaces) against the harness's sum of panel-force moments about the cg "
+    "and the first surface's MAC; non-trivial = distinct input tuples"
 )
 ASSUMPTIONS = ["finite value alphabets", "ideal gas R = 1716.49 ft lbf/(slug R), gamma = 1.4; the tabulated standard atmosphere is consistent with them to 2e-3", "OpenMDAO/NumPy trusted"]
 BOUND = {"quick": "1-3 surfaces x 4 symmetry patterns (all full, all half, mixed full-first / half-first) x 3 values per input group", "thorough": "more value tuples"}
